@@ -2157,9 +2157,10 @@ ure_write_dfa(ure_dfa_t dfa, FILE *out)
   }
 }
 
-#define _ure_issep(cc) _ure_matches_properties(cc, _URE_SEPARATOR)
 #define _ure_isbrk(cc) ((cc) == '\n' || (cc) == '\r' || (cc) == 0x2028 ||\
                         (cc) == 0x2029)
+/* _ure_matches_properties() knows no separator property in libzvbi. */
+#define _ure_issep(cc) _ure_isbrk(cc)
 
 int
 #ifdef __STDC__
